@@ -69,6 +69,18 @@ func derefType(rtype reflect.Type) reflect.Type {
 	return rtype
 }
 
+// Get rid of 0 to many levels of pointers to get at the real value. The second
+// return value is false when a nil pointer is found on the way.
+func derefValue(rvalue reflect.Value) (reflect.Value, bool) {
+	for rvalue.Kind() == reflect.Ptr {
+		if rvalue.IsNil() {
+			return rvalue, false
+		}
+		rvalue = rvalue.Elem()
+	}
+	return rvalue, true
+}
+
 func doMatchMatches(expression *grammar.MatchExpression, value reflect.Value) (bool, error) {
 	if !value.IsValid() {
 		return false, fmt.Errorf("Cannot perform matches operations on a nil value for selector: %q", expression.Selector)
@@ -138,9 +150,12 @@ func doMatchIn(expression *grammar.MatchExpression, value reflect.Value) (bool, 
 			// have to treat each element individually, checking each element's
 			// type/kind and rederiving the match value.
 			for i := 0; i < value.Len(); i++ {
-				item := value.Index(i).Elem()
-				itemType := derefType(item.Type())
-				kind := itemType.Kind()
+				// a nil element (JSON null) or a nil pointer equals nothing
+				item, ok := derefValue(value.Index(i).Elem())
+				if !ok || !item.IsValid() {
+					continue
+				}
+				kind := item.Kind()
 				// We need to special case errors here. The reason is that in an
 				// interface slice there can be a mix/match of types, but the
 				// coerce functions expect a certain type. So the expression
@@ -162,8 +177,8 @@ func doMatchIn(expression *grammar.MatchExpression, value reflect.Value) (bool, 
 				if eqFn == nil {
 					return false, fmt.Errorf(`unable to find suitable primitive comparison function for "in" comparison in interface slice: %s`, kind)
 				}
-				// the value will be the correct type as we verified the itemType
-				if eqFn(matchValue, reflect.Indirect(item)) {
+				// the value will be the correct type as we verified the item's kind
+				if eqFn(matchValue, item) {
 					return true, nil
 				}
 			}
@@ -182,9 +197,14 @@ func doMatchIn(expression *grammar.MatchExpression, value reflect.Value) (bool, 
 				return false, errors.New(`unable to find suitable primitive comparison function for "in" comparison`)
 			}
 			for i := 0; i < value.Len(); i++ {
-				item := value.Index(i)
+				// strip as many levels of pointers from the value as derefType
+				// stripped from its type; a nil pointer equals nothing
+				item, ok := derefValue(value.Index(i))
+				if !ok {
+					continue
+				}
 				// the value will be the correct type as we verified the itemType
-				if eqFn(matchValue, reflect.Indirect(item)) {
+				if eqFn(matchValue, item) {
 					return true, nil
 				}
 			}
